@@ -22,6 +22,7 @@ Binding      : (i)  spec -> code: TLC prints every table of the bound with the i
 import contextlib, ctypes, importlib.util, io, json, os, subprocess, sys, warnings
 from concurrent.futures import ThreadPoolExecutor
 from harness import core, gen_names
+from harness.gen_tlc import light, tlc_light
 
 LEVEL = "model_checking"
 
@@ -138,7 +139,7 @@ def oracle_replay(ctx, real, alpha, name, table, search, tails, corrupt=False):
     """TLC prints all tables of the bound + ideal answers; run the real code on them."""
     out = os.path.join(ctx.tmp, "oracle_%d.json" % len(ctx.cov["tlc_runs"]))
     r = core.tlc("Lookup", cfg_text=cfg(alpha, name, table, search, variant="oracle", spec="TSpec", invs=[]),
-                 workers=2, env={"ORACLE_OUT": out})
+                 workers=1, env=light({"ORACLE_OUT": out}))
     ctx.add_tlc("oracle(alpha=%s,name<=%d,table<=%d,search<=%d)" % (alpha, name, table, search), r,
                 count_states=False)
     if not os.path.exists(out):
@@ -422,7 +423,7 @@ def validate(ctx, recs, metas, report=True):
         chunk = recs[lo:lo + 400]
         r_path = os.path.join(ctx.tmp, "lk_%d.json" % len(ctx.cov["tlc_runs"]))
         core.write_json(r_path, chunk)
-        r = core.tlc("Trace_Lookup", workers=1, env={"TRACE_FILE": r_path})
+        r = core.tlc("Trace_Lookup", workers=1, env=light({"TRACE_FILE": r_path}))
         ctx.add_tlc("Trace_Lookup", r, count_states=False)
         chk = core.tla_tuples(r.out, "CHECKED")
         nq = sum(len(x["queries"]) for x in chunk)
@@ -453,7 +454,7 @@ def run(ctx):
     pool = ThreadPoolExecutor(6)
     # ---------------------------------------------------------------- design level (started in the background)
     confs = [("0A_a", 2, 3, 3), ("_a", 3, 4, 4)] if quick else \
-            [("$0A_ab", 2, 3, 3), ("$_a", 3, 4, 4), ("_a", 4, 5, 5), ("0A_a", 2, 4, 3)]
+            [("$0A_ab", 2, 3, 3), ("$_a", 3, 3, 4), ("_a", 4, 4, 5), ("0A_a", 2, 4, 3)]
     futs = []
     for i, (alpha, nm, tb, se) in enumerate(confs):
         futs.append(("MC_Lookup(alpha=%s,name<=%d,table<=%d,search<=%d)" % (alpha, nm, tb, se), "mc", i == 0,
@@ -464,10 +465,10 @@ def run(ctx):
     futs.append(("MC_LookupOrder(alpha=%s,name<=%d)" % oa, "mc", False,
                  pool.submit(core.tlc, "LookupOrder",
                              cfg_text=ORDER_CFG % (", ".join(str(ord(c)) for c in oa[0]), oa[1]),
-                             workers=2 if quick else 6, timeout=2400)))
+                             workers=2 if quick else 6, timeout=2400, env=light() if quick else None)))
     for v, alpha in (("gt", "_a"), ("noterm", "_a"), ("sortlower", "A_a"), ("leftmid", "_a")):
         futs.append(("sanity:" + v, "sanity", False,
-                     pool.submit(core.tlc, "Lookup", cfg_text=cfg(alpha, 2, 3, 3, variant=v), workers=1)))
+                     pool.submit(tlc_light, "Lookup", cfg_text=cfg(alpha, 2, 3, 3, variant=v))))
     # ---------------------------------------------------------------- code -> spec (modules are built meanwhile)
     real = RealSearch(ctx)
     recs, metas = synthetic_records(ctx, real, 30 if quick else 300, 400 if quick else 3000)
